@@ -13,6 +13,9 @@
 (*   | nullable(s) | enum(vals, s) | allOf(ss) | oneOf(ss) | anyOf(ss)     *)
 (*   | self  (a reference to the enclosing root schema: recursion)         *)
 (*   | fmt(ty, name)  (type ty with `format: name`)                        *)
+(*   | ref(name)  (a $ref to the shared component Defs[name]; every        *)
+(*     generated document carries all of Defs, so components are shared    *)
+(*     between the operations of a document)                               *)
 (* Bounds use NONE (= 0 - 1000) for "keyword absent".                      *)
 (* A property record is [name, s, req, decl]; decl = FALSE is a name that  *)
 (* appears under `required` only (not under `properties`).                 *)
@@ -30,7 +33,7 @@ A(v) == [t |-> "arr", v |-> v]
 O(m) == [t |-> "obj", m |-> m]
 
 \* characters of the concrete text of each multi-character symbol (cross-checked by the harness against its table)
-SymInfo == [d_1 |-> [len |-> 10, hasb |-> FALSE], d_feb30 |-> [len |-> 10, hasb |-> FALSE], d_short |-> [len |-> 8, hasb |-> FALSE], dt_feb30 |-> [len |-> 20, hasb |-> FALSE], dt_frac |-> [len |-> 22, hasb |-> FALSE], dt_month13 |-> [len |-> 20, hasb |-> FALSE], dt_nozone |-> [len |-> 19, hasb |-> FALSE], dt_off |-> [len |-> 25, hasb |-> FALSE], dt_plus |-> [len |-> 25, hasb |-> FALSE], dt_z |-> [len |-> 20, hasb |-> FALSE], du_1 |-> [len |-> 6, hasb |-> FALSE], du_1h30m0s |-> [len |-> 7, hasb |-> FALSE], du_90m |-> [len |-> 3, hasb |-> FALSE], du_bad |-> [len |-> 2, hasb |-> FALSE], du_frac |-> [len |-> 4, hasb |-> FALSE], ip_1 |-> [len |-> 11, hasb |-> FALSE], ip_256 |-> [len |-> 9, hasb |-> FALSE], si_12 |-> [len |-> 2, hasb |-> FALSE], si_7 |-> [len |-> 1, hasb |-> FALSE], si_big |-> [len |-> 19, hasb |-> FALSE], si_frac |-> [len |-> 3, hasb |-> FALSE], si_neg |-> [len |-> 2, hasb |-> FALSE], t_1 |-> [len |-> 8, hasb |-> FALSE], t_25h |-> [len |-> 8, hasb |-> FALSE], t_frac |-> [len |-> 10, hasb |-> FALSE], u_1 |-> [len |-> 36, hasb |-> TRUE], u_short |-> [len |-> 8, hasb |-> FALSE], u_upper |-> [len |-> 36, hasb |-> FALSE]]
+SymInfo == [du_neg250ms |-> [len |-> 6, hasb |-> FALSE], du_neg1ns |-> [len |-> 4, hasb |-> FALSE], du_neg90m |-> [len |-> 4, hasb |-> FALSE], du_neg1h30m0s |-> [len |-> 8, hasb |-> FALSE], du_zero |-> [len |-> 2, hasb |-> FALSE], du_us |-> [len |-> 5, hasb |-> FALSE], d_1 |-> [len |-> 10, hasb |-> FALSE], d_feb30 |-> [len |-> 10, hasb |-> FALSE], d_short |-> [len |-> 8, hasb |-> FALSE], dt_feb30 |-> [len |-> 20, hasb |-> FALSE], dt_frac |-> [len |-> 22, hasb |-> FALSE], dt_month13 |-> [len |-> 20, hasb |-> FALSE], dt_nozone |-> [len |-> 19, hasb |-> FALSE], dt_off |-> [len |-> 25, hasb |-> FALSE], dt_plus |-> [len |-> 25, hasb |-> FALSE], dt_z |-> [len |-> 20, hasb |-> FALSE], du_1 |-> [len |-> 6, hasb |-> FALSE], du_1h30m0s |-> [len |-> 7, hasb |-> FALSE], du_90m |-> [len |-> 3, hasb |-> FALSE], du_bad |-> [len |-> 2, hasb |-> FALSE], du_frac |-> [len |-> 4, hasb |-> FALSE], ip_1 |-> [len |-> 11, hasb |-> FALSE], ip_256 |-> [len |-> 9, hasb |-> FALSE], si_12 |-> [len |-> 2, hasb |-> FALSE], si_7 |-> [len |-> 1, hasb |-> FALSE], si_big |-> [len |-> 19, hasb |-> FALSE], si_frac |-> [len |-> 3, hasb |-> FALSE], si_neg |-> [len |-> 2, hasb |-> FALSE], t_1 |-> [len |-> 8, hasb |-> FALSE], t_25h |-> [len |-> 8, hasb |-> FALSE], t_frac |-> [len |-> 10, hasb |-> FALSE], u_1 |-> [len |-> 36, hasb |-> TRUE], u_short |-> [len |-> 8, hasb |-> FALSE], u_upper |-> [len |-> 36, hasb |-> FALSE]]
 FmtSyms == DOMAIN SymInfo
 
 \* the three patterns of the fragment, by name (their meaning is C08's business)
@@ -54,7 +57,9 @@ FmtTable == {
   FRow("t_1", "time", TRUE, "t_1"), FRow("t_frac", "time", TRUE, "t_frac"), FRow("t_25h", "time", FALSE, ""),
   FRow("u_1", "uuid", TRUE, "u_1"), FRow("u_upper", "uuid", TRUE, "u_1"), FRow("u_short", "uuid", FALSE, ""),
   FRow("ip_1", "ipv4", TRUE, "ip_1"), FRow("ip_256", "ipv4", FALSE, ""), FRow("u_1", "ipv4", FALSE, ""),
-  FRow("du_1", "duration", TRUE, "du_1"), FRow("du_90m", "duration", TRUE, "du_1h30m0s"), FRow("du_frac", "duration", TRUE, "du_frac"), FRow("du_bad", "duration", FALSE, ""),
+  FRow("du_1", "duration", TRUE, "du_1"), FRow("du_90m", "duration", TRUE, "du_1h30m0s"), FRow("du_frac", "duration", TRUE, "du_frac"), FRow("du_bad", "duration", FALSE, ""), FRow("du_neg250ms", "duration", TRUE, "du_neg250ms"), FRow("du_neg1ns", "duration", TRUE, "du_neg1ns"), FRow("du_neg90m", "duration", TRUE, "du_neg1h30m0s"),
+  FRow("du_neg1h30m0s", "duration", TRUE, "du_neg1h30m0s"), FRow("du_zero", "duration", TRUE, "du_zero"), FRow("du_us", "duration", TRUE, "du_us"),
+
   FRow("si_12", "int64", TRUE, "si_12"), FRow("si_neg", "int64", TRUE, "si_neg"), FRow("si_7", "int64", TRUE, "si_7"), FRow("du_1h30m0s", "duration", TRUE, "du_1h30m0s"), FRow("si_frac", "int64", FALSE, ""), FRow("si_big", "int64", FALSE, "")}
 StrFormats == {"date-time", "date", "time", "uuid", "ipv4", "duration", "int64"}
 IntFormats == {"unix-seconds", "unix-milli", "int32", "int64"}
@@ -65,6 +70,38 @@ Names(m) == {m[i][1] : i \in 1..Len(m)}
 Get(m, name) == (CHOOSE i \in 1..Len(m) : m[i][1] = name)
 PropNames(S0) == {S0.props[i].name : i \in {j \in 1..Len(S0.props) : S0.props[j].decl}}
 PropOf(S0, name) == S0.props[CHOOSE i \in 1..Len(S0.props) : S0.props[i].decl /\ S0.props[i].name = name]
+
+(**************************** schema constructors **************************)
+AnyS == [k |-> "any"]
+Bool == [k |-> "bool"]
+Str(minL, maxL, pat) == [k |-> "str", minL |-> minL, maxL |-> maxL, pat |-> pat]
+IntS(lo, hi, xlo, xhi, mult) == [k |-> "int", lo |-> lo, hi |-> hi, xlo |-> xlo, xhi |-> xhi, mult |-> mult]
+Num(lo, hi, xlo, xhi, mult) == [k |-> "num", lo |-> lo, hi |-> hi, xlo |-> xlo, xhi |-> xhi, mult |-> mult]
+Arr(items, minI, maxI, uniq) == [k |-> "arr", items |-> items, minI |-> minI, maxI |-> maxI, uniq |-> uniq]
+P(name, s, req) == [name |-> name, s |-> s, req |-> req, decl |-> TRUE]
+\* a name listed under `required` that `properties` does not declare
+PH(name) == [name |-> name, s |-> [k |-> "any"], req |-> TRUE, decl |-> FALSE]
+Obj(props, addl, minP, maxP) == [k |-> "obj", props |-> props, addl |-> addl, minP |-> minP, maxP |-> maxP]
+Nullable(s) == [k |-> "nullable", s |-> s]
+Enum(vals, s) == [k |-> "enum", vals |-> vals, s |-> s]
+AllOf(ss) == [k |-> "allOf", ss |-> ss]
+OneOf(ss) == [k |-> "oneOf", ss |-> ss]
+AnyOf(ss) == [k |-> "anyOf", ss |-> ss]
+Self == [k |-> "self"]
+Fmt(ty, name) == [k |-> "fmt", ty |-> ty, name |-> name]
+
+\* additionalProperties: true / false (or a schema)
+AT == [k |-> "addl_true"]
+AF == [k |-> "addl_false"]
+AnyStr == Str(0, NONE, "")
+AnyInt == IntS(NONE, NONE, FALSE, FALSE, NONE)
+AnyNum == Num(NONE, NONE, FALSE, FALSE, NONE)
+
+\* shared components (referenced by name from the schema domain)
+Defs == [ArrN |-> Nullable(Arr(AnyStr, 0, NONE, FALSE)), ArrS |-> Arr(AnyStr, 0, NONE, FALSE), ArrM |-> Arr(AnyInt, 1, 2, FALSE),
+         DA |-> Obj(<<P("a", AnyInt, TRUE), P("b", AnyInt, TRUE)>>, AT, 0, NONE), DB |-> Obj(<<P("b", AnyInt, TRUE)>>, AF, 0, NONE), DC |-> Obj(<<P("a", AnyInt, TRUE)>>, AF, 0, NONE),
+         StrN |-> Nullable(Str(1, NONE, "")), En |-> Enum(<<S(<<"a">>), S(<<"b">>)>>, AnyStr), Dt |-> Fmt("string", "date-time")]
+Ref(name) == [k |-> "ref", name |-> name]
 
 NumOK(S0, n) ==
   /\ (S0.lo # NONE => IF S0.xlo THEN n > S0.lo ELSE n >= S0.lo)
@@ -78,10 +115,11 @@ RECURSIVE V(_, _, _)
 V(root, S0, v) ==
   CASE S0.k = "any" -> TRUE
     [] S0.k = "self" -> V(root, root, v)
+    [] S0.k = "ref" -> V(Defs[S0.name], Defs[S0.name], v)
     [] S0.k = "nullable" -> IF v.t = "null" THEN NullListed(S0.s) ELSE V(root, S0.s, v)
     [] S0.k = "enum" -> (\E i \in 1..Len(S0.vals) : S0.vals[i] = v) /\ V(root, S0.s, v)
     [] S0.k = "bool" -> v.t = "bool"
-    [] S0.k = "fmt" -> IF S0.ty = "string" THEN v.t = "str" /\ Len(v.s) = 1 /\ FmtOK(S0.name, v.s[1]) ELSE v.t = "num" /\ v.n % 10 = 0
+    [] S0.k = "fmt" -> IF S0.ty = "string" THEN v.t = "str" /\ ((Len(v.s) = 1 /\ FmtOK(S0.name, v.s[1]))) ELSE v.t = "num" /\ v.n % 10 = 0
     [] S0.k = "str" -> v.t = "str" /\ Chars(v.s) >= S0.minL /\ (S0.maxL # NONE => Chars(v.s) <= S0.maxL) /\ Pat(S0.pat, v.s)
     [] S0.k = "int" -> v.t = "num" /\ v.n % 10 = 0 /\ NumOK(S0, v.n)
     [] S0.k = "num" -> v.t = "num" /\ NumOK(S0, v.n)
@@ -118,12 +156,23 @@ Valid(S0, v) == V(S0, S0, v)
 (*     presence of members only one variant declares (encoders_sum.tmpl); an    *)
 (*     instance carrying such members of two variants is refused as "multiple   *)
 (*     oneOf matches" even when only one variant validates                       *)
-IsArrMin(S0) == S0.k = "arr" /\ S0.minI > 0
-IsEmptyStruct(S0) == S0.k = "obj" /\ S0.props = <<>> /\ S0.addl.k \in {"addl_true", "addl_false"}
+Deref(S0) == IF S0.k = "ref" THEN Defs[S0.name] ELSE S0
+IsArrMin(S0) == Deref(S0).k = "arr" /\ Deref(S0).minI > 0
+IsEmptyStruct(S0) == Deref(S0).k = "obj" /\ Deref(S0).props = <<>> /\ Deref(S0).addl.k \in {"addl_true", "addl_false"}
+\* members only variant i of a sum declares
+UniqueIn(S0, i) == PropNames(Deref(S0.ss[i])) \ UNION {PropNames(Deref(S0.ss[j])) : j \in (1..Len(S0.ss)) \ {i}}
+(*   Dev_SumUniqueCachedOnSharedVariant: gen/schema_gen_sum.go stores the unique      *)
+(*     members of a variant on the variant's own type (SumSpec.Unique) and skips the  *)
+(*     computation when it is already set: a component that is a variant of two sums  *)
+(*     keeps, in the second, the unique members computed for the first.  SumDecode is *)
+(*     the generated decoder for a given assignment Us of unique members.             *)
+SharedSums == {OneOf(<<Ref("DA"), Ref("DC")>>), OneOf(<<Ref("DA"), Ref("DB")>>)}
+AltUnique(S0, i) == {UniqueIn(S0, i)} \cup {UniqueIn(x, j) : <<x, j>> \in {<<y, jj>> \in SharedSums \X (1..2) : jj <= Len(y.ss) /\ y.ss[jj] = S0.ss[i]}}
 RECURSIVE VI(_, _, _, _)
 VI(root, S0, v, D) ==
   CASE S0.k = "any" -> TRUE
     [] S0.k = "self" -> VI(root, root, v, D)
+    [] S0.k = "ref" -> VI(Defs[S0.name], Defs[S0.name], v, D)
     [] S0.k = "nullable" -> IF v.t = "null" THEN /\ ~("Dev_NullArrayLengthChecked" \in D /\ IsArrMin(S0.s)) /\ ~("Dev_NullEmptyStructRefused" \in D /\ IsEmptyStruct(S0.s))
                                                  /\ ("Dev_NullableEnumAcceptsNull" \in D \/ NullListed(S0.s))
                             ELSE VI(root, S0.s, v, D)
@@ -148,38 +197,23 @@ VI(root, S0, v, D) ==
     [] S0.k = "anyOf" -> \E i \in 1..Len(S0.ss) : VI(root, S0.ss[i], v, D)
     [] S0.k = "oneOf" -> LET exact == Cardinality({i \in 1..Len(S0.ss) : VI(root, S0.ss[i], v, D)}) = 1
                              \* members only variant i declares
-                             U(i) == PropNames(S0.ss[i]) \ UNION {PropNames(S0.ss[j]) : j \in (1..Len(S0.ss)) \ {i}}
+                             U(i) == UniqueIn(S0, i)
                              claimed == {i \in 1..Len(S0.ss) : U(i) \cap Names(v.m) # {}} IN
-                         IF "Dev_SumVariantByMemberPresence" \in D /\ v.t = "obj" /\ (\A i \in 1..Len(S0.ss) : S0.ss[i].k = "obj") /\ Cardinality(claimed) >= 2
+                         IF "Dev_SumVariantByMemberPresence" \in D /\ v.t = "obj" /\ (\A i \in 1..Len(S0.ss) : Deref(S0.ss[i]).k = "obj") /\ Cardinality(claimed) >= 2
                          THEN FALSE ELSE exact
 ImplValid(S0, v, D) == VI(S0, S0, v, D)
-Deviations == {"Dev_AbsentArrayLengthChecked", "Dev_NullArrayLengthChecked", "Dev_NullEmptyStructRefused", "Dev_NullableEnumAcceptsNull", "Dev_RequiredUndeclaredNotEnforced", "Dev_SumVariantByMemberPresence"}
-
-(**************************** schema constructors **************************)
-AnyS == [k |-> "any"]
-Bool == [k |-> "bool"]
-Str(minL, maxL, pat) == [k |-> "str", minL |-> minL, maxL |-> maxL, pat |-> pat]
-IntS(lo, hi, xlo, xhi, mult) == [k |-> "int", lo |-> lo, hi |-> hi, xlo |-> xlo, xhi |-> xhi, mult |-> mult]
-Num(lo, hi, xlo, xhi, mult) == [k |-> "num", lo |-> lo, hi |-> hi, xlo |-> xlo, xhi |-> xhi, mult |-> mult]
-Arr(items, minI, maxI, uniq) == [k |-> "arr", items |-> items, minI |-> minI, maxI |-> maxI, uniq |-> uniq]
-P(name, s, req) == [name |-> name, s |-> s, req |-> req, decl |-> TRUE]
-\* a name listed under `required` that `properties` does not declare
-PH(name) == [name |-> name, s |-> [k |-> "any"], req |-> TRUE, decl |-> FALSE]
-Obj(props, addl, minP, maxP) == [k |-> "obj", props |-> props, addl |-> addl, minP |-> minP, maxP |-> maxP]
-Nullable(s) == [k |-> "nullable", s |-> s]
-Enum(vals, s) == [k |-> "enum", vals |-> vals, s |-> s]
-AllOf(ss) == [k |-> "allOf", ss |-> ss]
-OneOf(ss) == [k |-> "oneOf", ss |-> ss]
-AnyOf(ss) == [k |-> "anyOf", ss |-> ss]
-Self == [k |-> "self"]
-Fmt(ty, name) == [k |-> "fmt", ty |-> ty, name |-> name]
-
-\* additionalProperties: true / false (or a schema)
-AT == [k |-> "addl_true"]
-AF == [k |-> "addl_false"]
-AnyStr == Str(0, NONE, "")
-AnyInt == IntS(NONE, NONE, FALSE, FALSE, NONE)
-AnyNum == Num(NONE, NONE, FALSE, FALSE, NONE)
+\* the generated sum decoder with unique members Us (one set per variant): the variant is
+\* the one claimed by a present member; none claimed -> the variant without unique members
+SumDecode(S0, v, Us, D) ==
+  LET claimed == {i \in 1..Len(S0.ss) : Us[i] \cap Names(v.m) # {}}
+      dflt == {i \in 1..Len(S0.ss) : Us[i] = {}} IN
+  IF v.t # "obj" \/ Cardinality(claimed) >= 2 THEN FALSE
+  ELSE IF claimed # {} THEN ImplValid(S0.ss[CHOOSE i \in claimed : TRUE], v, D)
+  ELSE IF dflt # {} THEN ImplValid(S0.ss[CHOOSE i \in dflt : \A j \in dflt : i <= j], v, D)
+  ELSE FALSE
+\* outcomes the stale cache can produce for a shared sum
+StaleOutcomes(S0, v, D) == {SumDecode(S0, v, Us, D) : Us \in {f \in [1..Len(S0.ss) -> SUBSET {"a", "b", "c"}] : \A i \in 1..Len(S0.ss) : f[i] \in AltUnique(S0, i)}}
+Deviations == {"Dev_AbsentArrayLengthChecked", "Dev_NullArrayLengthChecked", "Dev_NullEmptyStructRefused", "Dev_NullableEnumAcceptsNull", "Dev_RequiredUndeclaredNotEnforced", "Dev_SumVariantByMemberPresence", "Dev_SumUniqueCachedOnSharedVariant"}
 
 (******************************* schema domain *****************************)
 StrSchemas == {AnyStr, Str(2, NONE, ""), Str(0, 2, ""), Str(1, 2, ""), Str(0, 0, ""), Str(0, NONE, "^a+$"), Str(0, NONE, "b"), Str(2, 2, "^a+$"),
@@ -233,8 +267,13 @@ FmtSchemas == {Fmt("string", f) : f \in StrFormats} \cup {Fmt("integer", f) : f 
               \cup {Nullable(Fmt("string", "date-time")), Arr(Fmt("string", "date"), 0, NONE, FALSE), Arr(Fmt("string", "uuid"), 0, 2, TRUE),
                     Obj(<<P("a", Fmt("string", "date-time"), FALSE), P("b", Fmt("integer", "unix-seconds"), FALSE)>>, AF, 0, NONE),
                     Obj(<<P("a", Nullable(Fmt("string", "duration")), TRUE)>>, AF, 0, NONE), Obj(<<>>, Fmt("string", "time"), 0, NONE),
-                    OneOf(<<Fmt("integer", "int64"), Fmt("string", "uuid")>>)}
-Schemas == FmtSchemas \cup StrSchemas \cup IntSchemas \cup NumSchemas \cup ArrSchemas \cup ObjSchemas \cup SumSchemas \cup {Bool, Nullable(Bool), AnyS, Wide(9), Wide(17)}
+                    OneOf(<<Fmt("integer", "int64"), Fmt("string", "uuid")>>), Arr(Fmt("string", "duration"), 0, NONE, FALSE)}
+RefSchemas == {Obj(<<P("a", Ref("ArrN"), TRUE), P("b", Ref("ArrS"), FALSE)>>, AF, 0, NONE), Arr(Ref("ArrN"), 0, NONE, FALSE), Arr(Ref("ArrS"), 0, NONE, FALSE),
+               Obj(<<>>, Ref("ArrN"), 0, NONE), Obj(<<P("a", Ref("ArrM"), FALSE), P("c", Ref("StrN"), TRUE)>>, AF, 0, NONE),
+               Obj(<<P("a", Ref("StrN"), FALSE), P("b", Ref("En"), FALSE), P("c", Ref("Dt"), FALSE)>>, AF, 0, NONE),
+               \* two sums sharing a variant: what tells DA apart differs (b in the first, a ... in the second)
+               Ref("ArrN"), Ref("DA")} \cup SharedSums
+Schemas == RefSchemas \cup FmtSchemas \cup StrSchemas \cup IntSchemas \cup NumSchemas \cup ArrSchemas \cup ObjSchemas \cup SumSchemas \cup {Bool, Nullable(Bool), AnyS, Wide(9), Wide(17)}
 
 (****************************** instance domain ****************************)
 Leaves == {Null, B(TRUE), B(FALSE), N(0), N(10), N(20), N(30), N(40), N(5), N(15), N(1), N(0 - 10), N(0 - 20), N(0 - 30), N(0 - 60), N(0 - 160), S(<<>>), S(<<"a">>), S(<<"a", "a">>), S(<<"a", "a", "a">>), S(<<"b">>), S(<<"a", "b">>), S(<<"b", "b">>), S(<<"e">>),
